@@ -5,8 +5,15 @@ package main
 
 import (
 	"fmt"
+	"os"
+	"path/filepath"
+	"regexp"
 	"strings"
 
+	"github.com/antonmedv/expr/ast"
+	"github.com/antonmedv/expr/compiler"
+	"github.com/antonmedv/expr/file"
+	"github.com/antonmedv/expr/parser"
 	"github.com/antonmedv/expr/vm"
 )
 
@@ -25,6 +32,13 @@ var allModes = []Mode{
 // GenCases produces n generated sources, each built under one mode and one environment.
 func GenCases(c *Ctx, n int, depth int, modes []Mode, tweak func(*G)) []*Case {
 	var out []*Case
+	// minimised past failures and directed inputs run first (corpus/<property>.txt, one source per line)
+	for _, src := range corpusLines(c.Prop) {
+		for k := 0; k < 4; k++ {
+			env := NewEnv(k, func(n int) int { return (k*7 + 3) % n })
+			out = append(out, &Case{Src: src, Mode: modes[k%len(modes)], Env: env})
+		}
+	}
 	for i := 0; i < n; i++ {
 		g := &G{r: c.Rng}
 		if i%4 == 3 {
@@ -45,6 +59,27 @@ func GenCases(c *Ctx, n int, depth int, modes []Mode, tweak func(*G)) []*Case {
 	return out
 }
 
+func corpusLines(prop string) []string {
+	b, err := os.ReadFile(filepath.Join(verifDir(), "corpus", prop+".txt"))
+	if err != nil {
+		return nil
+	}
+	var out []string
+	for _, l := range strings.Split(string(b), "\n") {
+		l = strings.TrimSpace(l)
+		if l != "" && !strings.HasPrefix(l, "//") {
+			out = append(out, l)
+		}
+	}
+	return out
+}
+
+// verifDir is the root of the verification tree (the harness runs with cwd = <root>/harness)
+func verifDir() string {
+	wd, _ := os.Getwd()
+	return filepath.Dir(wd)
+}
+
 func envVal(cs *Case) interface{} {
 	if cs.Mode.Env == "map" {
 		return cs.Env.AsMap()
@@ -62,6 +97,7 @@ func CompileCorrespondence(c *Ctx, cases []*Case) []*Case {
 		r.Count("build:"+cs.B.Stage, 1)
 		if cs.B.Panicked {
 			r.Count("build:panicked", 1)
+			r.Note("pipeline panicked at stage %s: %s [%s]: %v", cs.B.Stage, cs.Src, cs.Mode.String(), cs.B.Err)
 		}
 		if cs.B.Tree != nil && !cs.B.Panicked {
 			lines = append(lines, T("compile", cs.Mode.cfgSx(), A(cs.B.TreeSx)).String())
@@ -135,8 +171,27 @@ func renderModel(p *vm.Program, m *Sx) string {
 
 type DefectFlags struct{ RangeSigned, MemNotReset bool }
 
-// the flags that mirror /repo today (flipped when a fix: commit lands; see known_findings.json)
+// The flags that mirror /repo today.  They are DERIVED on every run from the facts the translator extracts
+// from vm/vm.go (Gen/VMReset.lean: is `vm.memory` assigned in the prologue of Run?  Gen/Budget.lean: is the
+// size of OpRange clamped at zero?) by the model driver's `srcdefects` stage (lean/ExprModel/VM/SrcDefects.lean),
+// so the same /verif follows the code before and after a fix: commit.  The values below are only the
+// fallback used if the driver cannot be asked (reported as a broken tie).
 var asIs = DefectFlags{RangeSigned: true, MemNotReset: true}
+
+func initAsIs(c *Ctx) {
+	resp, err := c.AskAll([]string{"(srcdefects)"})
+	if err != nil {
+		c.R.Mismatch("driver", "srcdefects", err.Error(), "")
+		return
+	}
+	m, perr := ParseSx(resp[0])
+	if perr != nil || m.Tag() != "defects" || len(m.List) != 3 {
+		c.R.Mismatch("driver", "srcdefects", resp[0], "(defects <rangeSizeSigned> <memoryNotReset>)")
+		return
+	}
+	asIs = DefectFlags{RangeSigned: m.List[1].Atom == "true", MemNotReset: m.List[2].Atom == "true"}
+	c.R.Note("model variant derived from the source: rangeSizeSigned=%v memoryNotReset=%v", asIs.RangeSigned, asIs.MemNotReset)
+}
 
 func (d DefectFlags) Sx() *Sx { return T("defects", SBool(d.RangeSigned), SBool(d.MemNotReset)) }
 
@@ -175,14 +230,44 @@ func VMCorrespondence(c *Ctx, cases []*Case, budget int) []*VMResult {
 		} else {
 			r.Count("vm:ok", 1)
 		}
-		if real != model && !(strings.Contains(real, "f64") && nanEq(real, model)) {
+		if real != model && !(strings.Contains(real, "f64") && powClose(vr.Case, real, model)) {
 			r.Mismatch("vm", vr.Case.Src+" ["+vr.Case.Mode.String()+"] env="+valSx(envVal(vr.Case)).String(), model, real)
 		}
 	}
 	return res
 }
 
-func nanEq(a, b string) bool { return false }
+// powClose: math.Pow (Go) and libm pow (Lean's Float.pow) may differ in the last bits for non-exact results;
+// `**` values are not compared beyond that (DESIGN 3.3): tolerated only when the program contains OpExponent.
+func powClose(cs *Case, a, b string) bool {
+	hasPow := false
+	for _, by := range cs.B.Program.Bytecode {
+		if by == vm.OpExponent {
+			hasPow = true
+		}
+	}
+	if !hasPow {
+		return false
+	}
+	re := regexp.MustCompile(`\(f64 (\d+)\)`)
+	fa, fb := re.FindAllStringSubmatch(a, -1), re.FindAllStringSubmatch(b, -1)
+	if len(fa) != len(fb) || re.ReplaceAllString(a, "F") != re.ReplaceAllString(b, "F") {
+		return false
+	}
+	for i := range fa {
+		var x, y uint64
+		fmt.Sscan(fa[i][1], &x)
+		fmt.Sscan(fb[i][1], &y)
+		d := x - y
+		if y > x {
+			d = y - x
+		}
+		if d > 4 {
+			return false
+		}
+	}
+	return true
+}
 
 // SpecCorrespondence evaluates each compiled case with the Lean reference evaluator (on the tree the
 // real compiler was given) and compares value / error class / call log / allocation total with the real run.
@@ -238,8 +323,88 @@ func SpecCorrespondence(c *Ctx, results []*VMResult, budget int, rangeSigned, sl
 			real = fmt.Sprintf("(ok %s mem=%d log=%s)", valSx(vr.Real.Val), vr.Real.Memory, strings.Join(rl, ","))
 		}
 		r.Count("spec:compared", 1)
-		if spec != real {
+		if spec != real && !(strings.Contains(real, "f64") && powClose(vr.Case, real, spec)) {
 			onDiff(vr, spec, real)
 		}
 	}
+}
+
+// EnumCases: exhaustive small trees (depth 2 fully, depth 3 thinned) compiled WITHOUT type information
+// (trees built directly; compiler.Compile(tree, nil)).  The closure bodies use `#`.
+func EnumCases(c *Ctx, stride3 int) []*Case {
+	l := &locGen{}
+	var out []*Case
+	mk := func(f func() ast.Node, k int) {
+		n := f()
+		env := NewEnv(k, func(m int) int { return (k*5 + 1) % m })
+		tree := &parser.Tree{Node: n, Source: file.NewSource("")}
+		cs := &Case{Src: "<enum>", Mode: Mode{Env: "none"}, Env: env}
+		b := &Built{Src: "<enum>", Mode: cs.Mode, Tree: tree, TreeSx: nodeSx(n, true).String(), Stage: "compile"}
+		func() {
+			defer func() {
+				if r := recover(); r != nil {
+					b.Panicked = true
+					b.Err = fmt.Errorf("PANIC: %v", r)
+				}
+			}()
+			p, err := compiler.Compile(tree, nil)
+			b.Program, b.Err = p, err
+			if err == nil {
+				b.Stage = "done"
+			}
+		}()
+		cs.B = b
+		cs.Src = "<enum> " + ast.Dump(n)
+		out = append(out, cs)
+	}
+	leaves := enumLeaves(l, true)
+	d2 := EnumTrees(l, leaves, true, 1)
+	for i, f := range d2 {
+		mk(f, i)
+	}
+	// depth 3: children from a deterministic sample of depth-2 trees plus some leaves
+	var kids []func() ast.Node
+	for i, f := range d2 {
+		if i%(211+c.Rng.Intn(40)) == 0 {
+			kids = append(kids, f)
+		}
+	}
+	kids = append(kids, leaves[1], leaves[2], leaves[6], leaves[9], leaves[len(leaves)-1])
+	d3 := EnumTrees(l, kids, true, stride3)
+	for i, f := range d3 {
+		mk(f, i)
+	}
+	return out
+}
+
+// CompileCorrespondenceBuilt is CompileCorrespondence for cases that are already built.
+func CompileCorrespondenceBuilt(c *Ctx, cases []*Case) []*Case {
+	r := c.R
+	var lines []string
+	for _, cs := range cases {
+		lines = append(lines, T("compile", cs.Mode.cfgSx(), A(cs.B.TreeSx)).String())
+	}
+	resp, err := c.AskAll(lines)
+	if err != nil {
+		r.Mismatch("driver", "compile", err.Error(), "")
+		return nil
+	}
+	var ok []*Case
+	for i, cs := range cases {
+		r.Count("enum:compile:compared", 1)
+		if cs.B.Program == nil {
+			r.Count("enum:compile:rejected", 1)
+			if !strings.HasPrefix(resp[i], "(err") {
+				r.Mismatch("compile-enum", cs.B.TreeSx, resp[i], fmt.Sprint("error: ", cs.B.Err))
+			}
+			continue
+		}
+		impl := programSx(cs.B.Program).String()
+		if impl != resp[i] {
+			r.Mismatch("compile-enum", cs.B.TreeSx, resp[i], impl)
+			continue
+		}
+		ok = append(ok, cs)
+	}
+	return ok
 }
